@@ -48,6 +48,12 @@ func rawHTML(refs commonmark.ReferenceMap, rb *commonmark.RootBlock) string {
 	return string(r.AppendBlock(nil, rb))
 }
 
+// rawHTMLFiltered renders with the GFM tag filter: which tags are escaped must not depend on the line-ending style either.
+func rawHTMLFiltered(refs commonmark.ReferenceMap, rb *commonmark.RootBlock) string {
+	r := &commonmark.HTMLRenderer{ReferenceMap: refs, FilterTag: commonmark.FilterTagGFM}
+	return string(r.AppendBlock(nil, rb))
+}
+
 func splitLines(x []byte) [][]byte {
 	var out [][]byte
 	for len(x) > 0 {
@@ -202,7 +208,8 @@ func cmdMeta(args []string) *Result {
 			if safe {
 				h = safeHTML(refs, b)
 			} else {
-				h = rawHTML(refs, b)
+				// the default configuration, followed by the same block under the GFM tag filter
+				h = rawHTML(refs, b) + "\x00" + rawHTMLFiltered(refs, b)
 			}
 			ids = append(ids, in.id(norm(h)))
 		}
